@@ -60,7 +60,8 @@ def case_defs(c):
         if obs not in names:
             names[obs] = "ob%d_%d" % (c["idx"], len(names))
             out.append("Definition %s : tr := %s." % (names[obs], obs))
-        if op.startswith(("(MEnter", "MSMRead", "MGRead")):
+        if op.startswith(("(MEnter", "MSMRead", "MGRead", "(MAct")):
+            # consumer operations of Model/MirrorMgr.v (entrances with or without a key, reads, local actions)
             mop = op
         else:
             mop = "(MK %s)" % (op if op.startswith(("(XCrash", "XRestart", "(XOp")) else "(XOp %s)" % op)
@@ -109,7 +110,7 @@ def run_harness(c, binary, seed, ncases, nops, extra=(), batch=5, workers=6, bas
 
 def redos_of(case):
     """Gallina list of the kernel-step indices of crashed operations that are immediately offered again."""
-    ks = [op for op, _, _ in case["steps"] if not op.startswith(("(MEnter", "MSMRead", "MGRead"))]
+    ks = [op for op, _, _ in case["steps"] if not op.startswith(("(MEnter", "MSMRead", "MGRead", "(MAct"))]
     idx = []
     for i in range(len(ks) - 1):
         m = re.match(r"\(XCrash \d+ (.*)\)$", ks[i], flags=re.S)
